@@ -28,14 +28,15 @@ def lower_first(s):
     return s[0].lower() + s[1:]
 
 
-class _SessionManager:
-    """Stands in for ClientSessionManager: protocols only store `.session` at setup."""
-
-    session = None
-
-    async def close(self):
-        return None
-
+# zeroconf TXT records as announced by real devices (Apple TV 4K / AirPort Express style)
+TXT_RECORDS = {
+    "RAOP": {"md": "0,1,2", "et": "0,3,5", "cn": "0,1,2,3", "tp": "UDP", "am": "AppleTV6,2", "vs": "540.31.41", "ft": "0x4A7FDFD5,0xBC157FDE"},
+    "AirPlay": {"deviceid": "AA:BB:CC:DD:EE:FF", "srcvers": "540.31.41", "pi": "7c4f8d6e-0000-0000-0000-000000000000",
+                "acl": "0", "flags": "0x18644"},
+    "Companion": {"rpmd": "AppleTV6,2", "rpfl": "0x36782", "rpvr": "250.3", "rpha": "9948cfb6da55"},
+    "MRP": {"modelname": "Apple TV", "allowpairing": "YES", "systembuildversion": "17K82", "macaddress": "AA:BB:CC:DD:EE:FF"},
+    "DMAP": {"ctlN": "Apple TV", "hG": "00000000-1111-2222-3333-444444444444", "txtvers": "1"},
+}
 
 HAP_CREDENTIALS = ":".join(["aa" * 32, "bb" * 32, "cc" * 8, "dd" * 8])
 
@@ -50,33 +51,55 @@ def default_spec(**kw):
                        also yields an MRP SetupData running over the AirPlay remote-control tunnel
     unified            AirPlay advertises HasUnifiedAdvertiserInfo: airplay.setup() also yields RAOP
                        when the configuration has no RAOP service
+    txt                the services carry the TXT records real devices announce (TXT_RECORDS) instead
+                       of empty ones: what set-up derives from them (metadata types, models …) is in play
     """
-    spec = {"services": list(TEXT_ORDER), "companion_creds": True, "video": True, "tunnel": False, "unified": False}
+    spec = {"services": list(TEXT_ORDER), "companion_creds": True, "video": True, "tunnel": False, "unified": False,
+            "txt": False}
     spec.update(kw)
     return spec
 
 
 class Built:
-    """What `pyatv.connect` has in hand right before `atv.connect()`."""
+    """A device object as returned by the real `pyatv.connect()` (no network: every
+    SetupData.connect is replaced by a coroutine answering True or False)."""
 
-    def __init__(self, atv, queue, dispatcher, order):
-        self.atv = atv
-        self.queue = queue            # [(origin Protocol whose setup() yielded it, SetupData)] in add_protocol order
-        self.dispatcher = dispatcher  # the CoreStateDispatcher shared by facade and protocols
+    def __init__(self, atv, queue, cores, order, error):
+        self.atv = atv                # FacadeAppleTV, connected (None when pyatv.connect raised)
+        self.queue = queue            # [(origin Protocol whose setup() yielded it, original SetupData)] in add_protocol order
+        self.cores = cores            # {origin Protocol: the Core pyatv.connect created and wired for it}
         self.order = order
+        self.error = error            # exception pyatv.connect raised, if any
+
+    def dispatcher_for(self, protocol):
+        """A state dispatcher publishing in the name of `protocol` on the device's core dispatcher."""
+        core = next(iter(self.cores.values()))
+        return core.state_dispatcher.create_copy(protocol)
 
 
-async def _build(spec):
-    """The loop of pyatv.connect (pyatv/__init__.py:127-153) without the final atv.connect()."""
-    from functools import partial
+class _Session:
+    """Stands in for aiohttp.ClientSession: protocols only store it at setup."""
+
+
+async def _connected():
+    return True
+
+
+async def _refused():
+    return False
+
+
+async def _build(spec, fail=()):
+    """Run the real `pyatv.connect()` for a configuration.  Only `pyatv.PROTOCOLS` is wrapped:
+    each protocol's real `setup(core)` is called with the Core pyatv.connect created and wired
+    (takeover method, dispatcher, device listener), and every SetupData it yields is passed on
+    with `connect` answering True (False at the queue positions in `fail`) and a no-op `close`."""
     from ipaddress import IPv4Address
 
+    import pyatv
     from pyatv import conf
     from pyatv.const import Protocol
-    from pyatv.core import CoreStateDispatcher, MutableService, create_core
-    from pyatv.core.facade import FacadeAppleTV
-    from pyatv.protocols import PROTOCOLS
-    from pyatv.settings import Settings
+    from pyatv.core import MutableService
 
     config = conf.AppleTV(IPv4Address("127.0.0.1"), "verif")
     for name in spec["services"]:
@@ -88,39 +111,67 @@ async def _build(spec):
             if spec["tunnel"]:
                 props.update({"model": "AppleTV6,2", "osvers": "14.0"})
                 cred = HAP_CREDENTIALS
+        if spec.get("txt"):
+            props = dict(TXT_RECORDS[name], **props)
         if p == Protocol.Companion and spec["companion_creds"]:
             cred = HAP_CREDENTIALS
         config.add_service(MutableService("id-" + p.name, p, 1234, props, credentials=cred))
-    settings = Settings()
-    sm = _SessionManager()
-    dispatcher = CoreStateDispatcher()
-    atv = FacadeAppleTV(config, sm, dispatcher, settings)
-    queue = []
-    for proto, methods in PROTOCOLS.items():
-        service = config.get_service(proto)
-        if service is None or not service.enabled:
-            continue
-        core = await create_core(
-            config, service, settings=settings, device_listener=atv,
-            session_manager=sm, core_dispatcher=dispatcher,
-            takeover_method=partial(atv.takeover, proto), loop=asyncio.get_running_loop())
-        for sd in methods.setup(core):
-            queue.append((proto, sd))
-    return Built(atv, queue, dispatcher, list(PROTOCOLS.keys()))
+
+    queue, cores = [], {}
+    real = pyatv.PROTOCOLS
+
+    def wrap(proto, methods):
+        def setup(core):
+            cores[proto] = core
+            for sd in methods.setup(core):
+                k = len(queue)
+                queue.append((proto, sd))
+                yield sd._replace(connect=_refused if k in fail else _connected, close=lambda: set())
+        return methods._replace(setup=setup)
+
+    pyatv.PROTOCOLS = {proto: wrap(proto, methods) for proto, methods in real.items()}
+    atv, error = None, None
+    try:
+        atv = await pyatv.connect(config, asyncio.get_running_loop(), session=_Session())
+    except Exception as e:   # e.g. NoServiceError when nothing was set up
+        error = e
+    finally:
+        pyatv.PROTOCOLS = real
+    return Built(atv, queue, cores, list(real.keys()), error)
 
 
-def build_world(loop=None, spec=None):
-    """Set the protocols of a configuration up (no connection is made).  The facade is NOT
-    connected: callers add the SetupData they want (with `connect` replaced) and call
-    `atv.connect()`."""
+def build_world(loop=None, spec=None, fail=()):
+    """Connect (without network) to the device described by `spec` through pyatv.connect()."""
     spec = spec or default_spec()
     if loop is not None:
-        return loop.run_until_complete(_build(spec))
+        return loop.run_until_complete(_build(spec, fail))
     loop = asyncio.new_event_loop()
     try:
-        return loop.run_until_complete(_build(spec))
+        return loop.run_until_complete(_build(spec, fail))
     finally:
         loop.close()
+
+
+def reachable_cores(sd):
+    """The Core objects the registered instances of a SetupData hold (directly or through one
+    collaborator): what that protocol's code calls `core.takeover(...)` on."""
+    from pyatv.core import Core
+
+    seen, out = set(), []
+
+    def walk(obj, depth):
+        if id(obj) in seen or depth > 2:
+            return
+        seen.add(id(obj))
+        if isinstance(obj, Core):
+            out.append(obj)
+            return
+        for value in list(getattr(obj, "__dict__", {}).values()) if isinstance(getattr(obj, "__dict__", None), dict) else []:
+            walk(value, depth + 1)
+
+    for inst in sd.interfaces.values():
+        walk(inst, 0)
+    return out
 
 
 def native_setups(built):
@@ -143,6 +194,8 @@ PATH_SPECS = [
     ("unified", default_spec(services=["AirPlay"], unified=True)),
     ("unified+others", default_spec(services=["MRP", "DMAP", "Companion", "AirPlay"], unified=True)),
     ("tunnel+unified", default_spec(services=["AirPlay", "Companion"], tunnel=True, unified=True)),
+    ("native+txt-records", default_spec(txt=True)),
+    ("tunnel+unified+txt-records", default_spec(services=["AirPlay", "Companion"], tunnel=True, unified=True, txt=True)),
 ] + [("only-" + n, default_spec(services=[n])) for n in TEXT_ORDER]
 
 
